@@ -9,7 +9,7 @@ from .c07 import all_idents, DICT, RUST_KEYWORDS
 IDENTS = ['Red', 'HTTPServer', 'Foo2Bar', 'A1', 'Hello2You', 'XMLHttpRequest', 'IOError', 'Utf8', 'B2B', 'Plain', 'Mixed_Case_9', 'V2Beta3', 'Ab_cD', 'Task',
           'Kind9', 'x9', 'Foo_1', 'R2D2', 'Abc123Def', 'NaN']
 TUPLES = [[], ['u8'], ['u8', 'String'], ['bool', 'i32', 'String'], ['i64', 'u16'], ['String', 'OptU8', 'u32']]
-OTHER_KINDS = [('unit', []), ('named', ['i32']), ('named', ['u8', 'String'])]
+OTHER_KINDS = [('unit', []), ('named', ['i32']), ('named', ['u8', 'String']), ('named', [])]
 
 
 def generate(tier, rng):
@@ -109,7 +109,20 @@ def run(tier, seed, rng):
             nbad += 1
             if nbad <= 3:
                 res.violation({'kind': 'disagreement', 'label': 'modeA', 'op': l, 'model': m, 'impl': i, 'what': 'snakify differs from the model'})
-    res.cov['modeA'] = {'identifiers': len(idents), 'max_len': maxlen, 'disagreements': nbad}
+    # identifiers with non-ASCII letters are outside the Lean model (heck's Unicode tables are not modelled): a TEST, not a
+    # proof - the crate's snakify against a char-based reference written here + the external heck crate
+    NONASCII = ['Über2', 'Café2', 'naïveBar', 'Straße2Go', 'Ünï9x', 'CaféLatte', 'Ωmega3', 'Жук7', 'x9é', 'É2É', 'aé1b2', '日本2語']
+    l2 = ['snakify %s' % hx(s) for s in NONASCII] + ['snakifyref %s' % hx(s) for s in NONASCII]
+    o2 = modea.run(binp, l2)
+    nb2 = 0
+    for s, got, ref in zip(NONASCII, o2[:len(NONASCII)], o2[len(NONASCII):]):
+        if got != ref:
+            nb2 += 1
+            if nb2 <= 2:
+                res.violation({'kind': 'disagreement', 'label': 'modeA-nonascii', 'op': 'snakify %s' % hx(s), 'identifier': s, 'model': ref, 'impl': got,
+                               'what': 'snakify on a non-ASCII identifier differs from the char-based reference (outside the Lean model: differential test)'})
+    res.cov['modeA'] = {'identifiers': len(idents), 'max_len': maxlen, 'disagreements': nbad,
+                        'nonascii_identifiers_tested_outside_model': len(NONASCII), 'nonascii_disagreements': nb2}
     c = generate(tier, rng)
     out = correspond(res, c, runner.Workspace('c13'), label='modeB')
     # oracle: exactly one is_* is true for an enabled variant, none for a disabled one
